@@ -294,6 +294,10 @@ pub enum Op {
     SkFromBe,          // [bytes32] -> [flag, sk?]   CtOption
     SkFromLe,          // [bytes32] -> [flag, sk?]
     SchemeFrom,        // [u8 | str] -> [u8]   SignatureSchemes::from(u8)/from(&str)/FromStr
+    MemLayout,         // [] -> [size_of Signature<C>, size_of PublicKey<C>, size_of (PublicKey point, Vec<u8>)]  8 bytes LE each: the in-memory sizes a caller can compute too
+    AggVerifyReentrant, // [aggsig, pop-per-entry flag(1), (pk, msg, pop)...] -> [verdict of every nested PoP verification (1 byte each)]  the scheme trait's aggregate_verify fed by an iterator whose closure calls ProofOfPossession::verify for the entry it is about to yield
+    EgEncryptProofBlinder, // [pk, msk, blinder] -> [eproof]   trait-level seal_scalar_with_proof with a caller-supplied blinder
+    MultiSigVerifyKeys, // [msig, msg, pk...] -> []   trait-level BlsSignaturePop::multi_sig_verify over the list of keys
 }
 
 /// Result of one facade call.
